@@ -1,7 +1,16 @@
 package proxy
 
 import (
+	"context"
+	"strconv"
+
+	"go.temporal.io/server/api/adminservice/v1"
+	"go.temporal.io/server/client/history"
+	"go.temporal.io/server/common/log"
+	"google.golang.org/grpc/metadata"
+
 	"github.com/temporalio/s2s-proxy/common"
+	"github.com/temporalio/s2s-proxy/config"
 )
 
 // ---------------------------------------------------------------------------
@@ -46,11 +55,27 @@ func verifHarness_C07_pairs() {
 	verifAssert(int64(lcm)*int64(g) == int64(local)*int64(remote), "lcm*gcd=a*b")
 
 	inbound := verifChoose("direction", 2) == 0
-	// what NewClusterConnection's getLCMParameters computes
-	t := remote
-	if inbound {
-		t = local
+	// the parameters the real NewClusterConnection hands to the server of that direction
+	var cfg config.ClusterConnConfig
+	cfg.Name = "conn"
+	cfg.Local.ConnectionType = config.ConnTypeTCP
+	cfg.Remote.ConnectionType = config.ConnTypeTCP
+	cfg.ShardCountConfig = config.ShardCountConfig{Mode: config.ShardCountLCM, LocalShardCount: local, RemoteShardCount: remote}
+	in, out, err := wrBuild(cfg)
+	verifAssert(err == nil && in != nil && out != nil, "cluster-connection-built")
+	if err != nil || in == nil || out == nil {
+		return
 	}
+	params := out.admin.lcmParameters
+	served := remote // the outbound server forwards to the remote cluster
+	if inbound {
+		params = in.admin.lcmParameters
+		served = local // the inbound server forwards to the local cluster
+	}
+	verifAssert(params.LCM == lcm, "server-configured-with-the-lcm")
+	verifAssert(params.TargetShardCount == served, "server-configured-with-the-serving-clusters-real-count")
+	t := params.TargetShardCount
+	lcm = params.LCM
 	s := verifNondetInt32("lcmShard")
 	h := verifNondetUint32("workflowHash")
 	verifAssume(verifAnd(s >= 1, s <= lcm))
@@ -66,3 +91,98 @@ func verifHarness_C07_pairs() {
 	verifAssert(verifImplies(hashesToS, mapped == owner), "forwarded-to-owner-of-every-workflow-in-s")
 }
 
+
+// verifHarness_C07_describe: DescribeCluster reports the LCM as the peer's shard count in both
+// directions, and leaves the count alone when the translation-bypass header is set.
+func verifHarness_C07_describe() {
+	local, remote := c07Pair()
+	var cfg config.ClusterConnConfig
+	cfg.Name = "conn"
+	cfg.Local.ConnectionType = config.ConnTypeTCP
+	cfg.Remote.ConnectionType = config.ConnTypeTCP
+	cfg.ShardCountConfig = config.ShardCountConfig{Mode: config.ShardCountLCM, LocalShardCount: local, RemoteShardCount: remote}
+	in, out, err := wrBuild(cfg)
+	verifAssert(err == nil && in != nil && out != nil, "cluster-connection-built")
+	if err != nil || in == nil || out == nil {
+		return
+	}
+	lcm := common.LCM(local, remote)
+	inbound := verifChoose("direction", 2) == 0
+	srv := out.admin
+	wrBackendShardCount = remote // the outbound server asks the remote cluster
+	if inbound {
+		srv = in.admin
+		wrBackendShardCount = local
+	}
+	bypass := verifChoose("bypass", 2) == 1
+	md := metadata.Pairs("x", "y")
+	if bypass {
+		md.Set(common.RequestTranslationHeaderName, "false")
+	}
+	ctx := metadata.NewIncomingContext(context.Background(), md)
+	resp, err := srv.DescribeCluster(ctx, &adminservice.DescribeClusterRequest{})
+	verifAssert(err == nil && resp != nil, "describe-cluster-answered")
+	if resp == nil {
+		return
+	}
+	if bypass {
+		verifReach("bypass")
+		verifAssert(resp.HistoryShardCount == wrBackendShardCount, "bypass-header-leaves-the-real-count")
+	} else {
+		verifReach("translated")
+		verifAssert(resp.HistoryShardCount == lcm, "describe-cluster-reports-the-lcm")
+	}
+}
+
+// verifHarness_C07_stream: the LCM branch of the stream handler opens the stream to the serving
+// cluster with the LCM shard id passed on as the initiator's shard and the mapped shard as server.
+func verifHarness_C07_stream() {
+	local, remote := c07Pair()
+	lcm := common.LCM(local, remote)
+	inbound := verifChoose("direction", 2) == 0
+	t := remote
+	if inbound {
+		t = local
+	}
+	var s int32
+	switch verifChoose("shard", 3) {
+	case 0:
+		s = 1
+	case 1:
+		s = lcm
+	case 2:
+		s = (lcm + 1) / 2
+	}
+	ini := &fwInit{ctx: metadata.NewIncomingContext(context.Background(), metadata.Pairs("k", "v")), in: make(chan c06Event, 1)}
+	src := &fwSrc{in: make(chan c06Event, 1)}
+	src.in <- c06Event{err: errC06} // the stream ends at once; only its opening metadata matters here
+	client := &fwAdminClient{src: src}
+	md := metadata.Pairs("other", "kept")
+	err := handleStream(ini, md,
+		history.ClusterShardID{ClusterID: 7, ShardID: s}, history.ClusterShardID{ClusterID: 9, ShardID: 4},
+		log.NewNoopLogger(), config.ShardCountConfig{Mode: config.ShardCountLCM, LocalShardCount: local, RemoteShardCount: remote},
+		LCMParameters{LCM: lcm, TargetShardCount: t}, RoutingParameters{}, client, nil, nil, []string{"l"}, context.Background())
+	verifAssert(err == nil, "lcm-stream-handled")
+	verifAssert(src.opened, "stream-opened-to-serving-cluster")
+	if !src.opened {
+		return
+	}
+	verifReach("lcm-stream-opened")
+	get := func(k string) int {
+		v := src.md.Get(k)
+		if len(v) != 1 {
+			return -999
+		}
+		n, e := strconv.Atoi(v[0])
+		if e != nil {
+			return -998
+		}
+		return n
+	}
+	owner := (s-1)%t + 1
+	verifAssert(get(history.MetadataKeyClientClusterID) == 9, "initiator-cluster-id-passed-on")
+	verifAssert(get(history.MetadataKeyClientShardID) == int(s), "lcm-shard-passed-on-as-initiators-shard")
+	verifAssert(get(history.MetadataKeyServerClusterID) == 7, "serving-cluster-id-kept")
+	verifAssert(get(history.MetadataKeyServerShardID) == int(owner), "forwarded-to-the-mapped-real-shard")
+	verifAssert(len(src.md.Get("other")) == 1, "other-metadata-preserved")
+}
